@@ -163,8 +163,10 @@ func (m *marshaler) marshalDecls(first *bool, entities ast.Entities, enums ast.E
 			m.w.WriteString(" in ")
 			m.marshalParentRefs(action.Parents)
 		}
-		if action.AppliesTo != nil {
-			m.marshalAppliesTo(action.AppliesTo)
+		// An action with no principal or no resource types never applies; the text
+		// format can only spell that by omitting appliesTo.
+		if at := action.AppliesTo; at != nil && len(at.Principals) > 0 && len(at.Resources) > 0 {
+			m.marshalAppliesTo(at)
 		}
 		m.w.WriteString(";\n")
 	}
